@@ -406,4 +406,11 @@ def random_sim_case(r, sim, nmax=14, tmaxes=None):
         case['tmax'] = case['tmin'] + 4      # generic specs need not die out
     if case['tmin'] < 0 and r.random() < 0.35:
         case['tmax'] = r.choice([0, 0.0])    # a horizon of exactly zero (falsy) after a negative start time
+    if sim in WEIGHTED and case['tmin'] == 0 and r.random() < 0.12:
+        # the same epidemic in another time unit (per-second instead of per-year rates): all rates tiny, or large
+        sc = r.choice([1e-9, 1e-13, 1e6])
+        case['tau'], case['gamma'] = case['tau'] * sc, case['gamma'] * sc
+        if case['tmax'] != 'inf':
+            case['tmax'] = case['tmin'] + (case['tmax'] - case['tmin']) / sc
+        case['time_unit_scaled'] = sc
     return case
